@@ -36,6 +36,8 @@ type c06Case struct {
 	Clen        string   `json:"clen"`
 	SetDefaults bool     `json:"setDefaults"`
 	Sch         any      `json:"sch"`
+	// BodyRequired: requestBody.required of a decode case (absent = true)
+	BodyRequired *bool `json:"bodyRequired"`
 }
 
 func renderMT(m any) string {
@@ -153,7 +155,7 @@ func c06Run(c *Case) []any {
 			ct = "text/plain"
 			body = []byte(csToString(v["cs"]))
 		}
-		required = true
+		required = tc.BodyRequired == nil || *tc.BodyRequired
 	}
 	doc := map[string]any{"openapi": "3.0.3", "info": map[string]any{"title": "t", "version": "1"},
 		"paths": map[string]any{"/t": map[string]any{"post": map[string]any{
